@@ -209,7 +209,15 @@ theorem cexpr_fromCtx {env : Env} {file : AFile} {G : List String} {Γ : Ctx} {K
         obtain ⟨h1, h2⟩ := fields_fromCtx env (calleesC (.constr (.struct sn) args ty)) d.fields hcase
         simp only [compileCExpr, hd, Option.map_some, Option.getD_some, varsUsed, noBlockExpr]
         exact ⟨h1, h2⟩
-  | tuple items ty => simp [fragC] at h
+  | tuple items ty =>
+    simp only [fragC] at h
+    cases ty with
+    | tuple ts =>
+      simp only [Bool.and_eq_true] at h
+      obtain ⟨h1, h2⟩ := tfields_fromCtx env (calleesC (.tuple items (.tuple ts))) 0 h.1
+      simp only [compileCExpr, varsUsed, noBlockExpr]
+      exact ⟨h1, h2⟩
+    | _ => exact absurd h (by simp)
   | array items ty => simp [fragC] at h
   | cget e c idx ty =>
     cases c with
@@ -224,7 +232,10 @@ theorem cexpr_fromCtx {env : Env} {file : AFile} {G : List String} {Γ : Ctx} {K
   | toDyn tr forTy e ty => simp [fragC] at h
   | dynCall tr m recv args ty => simp [fragC] at h
   | go e ty => simp [fragC] at h
-  | proj e idx ty => simp [fragC] at h
+  | proj e idx ty =>
+    simp only [fragC, Bool.and_eq_true] at h
+    obtain ⟨h1, h2⟩ := imm_fromCtx env h.1 (calleesC (.proj e idx ty))
+    simp only [compileCExpr, varsUsed, noBlockExpr]; exact ⟨h1, h2⟩
 
 /-! ### the scope invariant -/
 
@@ -740,14 +751,16 @@ theorem scopeC {env : Env} {file : AFile} {G : List String} {D : Names} :
     | tvar k => rw [hsty] at hcase; simp [switchTy] at hcase
   | .constr c args ty, m, st, Γ, K, sc, hfrag, hctx, hdecl, htgt => by
     rw [compileTail_simple env m st (by rfl)]; exact scopeC_simple m _ Γ K sc rfl hfrag hctx htgt
-  | .tuple items ty, m, st, Γ, K, sc, hfrag, _, _, _ => by simp [fragC] at hfrag
+  | .tuple items ty, m, st, Γ, K, sc, hfrag, hctx, hdecl, htgt => by
+    rw [compileTail_simple env m st (by rfl)]; exact scopeC_simple m _ Γ K sc rfl hfrag hctx htgt
   | .array items ty, m, st, Γ, K, sc, hfrag, _, _, _ => by simp [fragC] at hfrag
   | .cget e c idx ty, m, st, Γ, K, sc, hfrag, hctx, hdecl, htgt => by
     rw [compileTail_simple env m st (by rfl)]; exact scopeC_simple m _ Γ K sc rfl hfrag hctx htgt
   | .toDyn tr forTy e ty, m, st, Γ, K, sc, hfrag, _, _, _ => by simp [fragC] at hfrag
   | .dynCall tr mm recv args ty, m, st, Γ, K, sc, hfrag, _, _, _ => by simp [fragC] at hfrag
   | .go e ty, m, st, Γ, K, sc, hfrag, _, _, _ => by simp [fragC] at hfrag
-  | .proj e idx ty, m, st, Γ, K, sc, hfrag, _, _, _ => by simp [fragC] at hfrag
+  | .proj e idx ty, m, st, Γ, K, sc, hfrag, hctx, hdecl, htgt => by
+    rw [compileTail_simple env m st (by rfl)]; exact scopeC_simple m _ Γ K sc rfl hfrag hctx htgt
 theorem scopeArms {env : Env} {file : AFile} {G : List String} {D : Names} :
     ∀ (arms : List AArm) (m : Mode) (st : St) (Γ : Ctx) (K : KCtx) (sc : Names) (ak : ArmKind) (ty : Ty),
       fragArms env file G Γ K ak ty arms = true → SCtx D sc Γ (calleesArms arms) →
